@@ -22,6 +22,7 @@ func traverse(cmd *cobra.Command, args []string) (Action, Context) {
 	inArgs := []string{}        // args consumed by current command
 	inPositionals := []string{} // positionals consumed by current command
 	var inFlag *pflagfork.Flag  // last encountered flag that still expects arguments
+	inCommandCandidate := false // a word that cobra would have tried as subcommand name was consumed
 	cmd.LocalFlags()            // TODO force  c.mergePersistentFlags() which is missing from c.Flags()
 	fs := pflagfork.FlagSet{FlagSet: cmd.Flags()}
 
@@ -58,8 +59,8 @@ loop:
 			}
 			continue
 
-		// subcommand (only the first positional word can name one, see cobra's Command.Find)
-		case len(inPositionals) == 0 && subcommand(cmd, arg) != nil:
+		// subcommand (only the first non-empty positional word can name one, see cobra's Command.Find)
+		case !inCommandCandidate && subcommand(cmd, arg) != nil:
 			LOG.Printf("arg %#v is a subcommand\n", arg)
 
 			switch {
@@ -81,6 +82,9 @@ loop:
 			LOG.Printf("arg %#v is a positional\n", arg)
 			inArgs = append(inArgs, arg)
 			inPositionals = append(inPositionals, arg)
+			if arg != "" && !strings.HasPrefix(arg, "-") {
+				inCommandCandidate = true // cobra stops looking for a subcommand here
+			}
 		}
 	}
 
